@@ -26,6 +26,7 @@ pub fn gen_oligo_case(rng: &mut Rng, tier: &str, prop: &str) -> Case {
         min_len: 0,
         dup_pct: 3,
             tab_desc_pct: 0,
+            dup_id_pct: 0,
     };
     let mut records = g.gen(rng);
     // keep wide rows affordable: k >= 6 means thousands of columns per row
@@ -38,14 +39,7 @@ pub fn gen_oligo_case(rng: &mut Rng, tier: &str, prop: &str) -> Case {
     if stdin {
         container.gz = None;
     }
-    let total: usize = records.iter().map(|r| r.seq.len()).sum();
-    let memory = match rng.weighted(&[20, 10, 35, 15, 20]) {
-        0 => 1,
-        1 => 2,
-        2 => rng.usize(1, total.max(2)),
-        3 => total.max(1),
-        _ => 4usize << 30,
-    };
+    let memory = super::c11::gen_memory_rec(rng, &records);
     let threads = gen_threads(rng);
     let sched = Sched::draw(rng, 5 * records.len() as u64 + 4 * threads as u64 + 8);
     Case {
